@@ -129,6 +129,28 @@ REASONS = {}
 
 checks, na = [], []
 # rounds 11/12 (mixed commits and their benign halves; DESIGN.md 7.12)
+EXTRA14 = {
+ 'C01': "Round 14: a once-written local literal of Call that retires counts as a retire at each call site; a bool predicate that deletes the table entry before every 'return true' is a removal.",
+ 'C02': "Round 14: R-C02-16 the number of reply slots of a batch is a count of calls (append/make fed under IsCall only).",
+ 'C03': "Round 14: queue-empty through a method of a queue type; a re-based ring buffer is copied head first; token-count joins compared as linear forms in len(sessions).",
+ 'C04': "Round 14: a float64 fast path in front of DecodeID is evaluated at +-2^53, +-(2^53+2), +-2^62.",
+ 'C05': "Round 14: removing a finished listen id never stores into the slot the truncation cuts off.",
+ 'C06': "Round 14: adoption of InitializeParams and the initialize/initialized lifecycle decided by evaluation per method x phase x protocol when the flag spelling is absent.",
+ 'C07': "Round 14: a memo of transport versions must key on every receiver field SupportsProtocolVersion reads.",
+ 'C08': "Round 14: positional replay (cursor+1+i, cursor += len(S)) decided over linear forms; the index origin of the store advances by exactly the slots dropped.",
+ 'C09': "Round 14: every yield(x,nil) of the event scanner classified by evaluation from the read under {line, EOF, other error} x {blank, non-blank}; a read error is terminal.",
+ 'C10': "Round 14: R-C10-9 the id given to newStream is fresh in the session (crypto/rand, or a counter only stepped forward under the connection lock).",
+ 'C11': "Round 14: idle-timer state found by role, delegates evaluated with bound constants; a table delete in a serving function only behind the owner check, under the lock, followed by Close.",
+ 'C12': "Round 14: the body limit is applied for ContentLength -1; 'true means answered' helpers.",
+ 'C13': "Round 14: ping deadline computed as a fraction of the interval (exactly 1/2); verdict-local reachability; threshold as max(thr+a,b).",
+ 'C14': "Round 14: a countdown over granted scopes counts each scope once (otherwise that mechanism is UNDECIDED); IsZero is asked of the token's expiration itself.",
+ 'C15': "Round 14: URL check functions evaluated for concrete schemes (http, ftp, empty, javascript, data); a remembered registration is unreachable when the remembered issuer differs.",
+ 'C16': "Round 14: every view of the provided schema (copy, type-switch variable, derived flag) in the by-type-cache rule; a recursive has-defaults gate covers the whole schema.",
+ 'C17': "Round 14: insert evaluated under 'key is new'; an in-place merge needs a sorted operand; a decoded cursor is never answered from the start.",
+ 'C18': "Round 14: invalidation methods found from the notification handlers, bump/drop on every path or iteration; a stopped timer leaves its slot.",
+ 'C19': "Round 14: a hand-written DecodeID is run by a syntax-tree evaluator on 47 boundary ids (UNDECIDED if a run cannot finish); b[:0] of a buffer that outlives the round is a view.",
+ 'C20': "Round 14: After's locked copy evaluated at concrete (index, first, len) against the specification; aggregate byte counters paired like nBytes.",
+}
 EXTRA12 = {
  'C02': "Rounds 11-12: every way from integer syntax to the float coercion passes the exact parse (first-byte tests evaluated for '-', '0', '5', '9'); a hand-written id parser is UNDECIDED; no loop of the batch bookkeeping ranges over a collection its guards say is empty.",
  'C03': "Rounds 11-12: a goroutine that sends a notification is joined before the notifying function returns.",
@@ -150,7 +172,7 @@ for p in props:
     i = p['id']
     if i in CLAIMS:
         text, tech, ref = CLAIMS[i]
-        add = ' '.join(x for x in (EXTRA.get(i), EXTRA9.get(i), EXTRA12.get(i)) if x)
+        add = ' '.join(x for x in (EXTRA.get(i), EXTRA9.get(i), EXTRA12.get(i), EXTRA14.get(i)) if x)
         if add:
             j = text.rfind('Not decided:')
             text = (text[:j] + add + ' ' + text[j:]) if j >= 0 else text + ' ' + add
